@@ -22,6 +22,7 @@ type rmStep struct {
 	Ok      bool   `json:"ok"`
 	Serving string `json:"serving"`
 	Got     string `json:"got"`
+	Refused bool   `json:"refused"`
 }
 type rmCase struct {
 	ID   int      `json:"id"`
@@ -35,6 +36,7 @@ type fakeWorld struct {
 	state   map[string]interface{}
 	events  []map[string]interface{}
 	slow    map[string]chan struct{} // version -> gate the compile of that version waits on
+	refuse  bool                     // the server's next Reload returns an error (and changes nothing)
 }
 
 func (w *fakeWorld) log(ev string, v string) {
@@ -71,6 +73,10 @@ type fakeServer struct{ w *fakeWorld }
 func (s fakeServer) Reload(b []byte) error {
 	s.w.mu.Lock()
 	defer s.w.mu.Unlock()
+	if s.w.refuse {
+		s.w.refuse = false
+		return errors.New("server refuses this version")
+	}
 	s.w.serving = string(b)
 	s.w.log("Switch", string(b))
 	return nil
@@ -124,6 +130,9 @@ func TestVerifReloadManagerReplay(t *testing.T) {
 				w.mu.Unlock()
 			case "Reload":
 				last = nil
+				w.mu.Lock()
+				w.refuse = st.Refused
+				w.mu.Unlock()
 				rm.handleChanges([]FileChange{{Path: "/x/main.glyph", Type: ChangeTypeModified, Timestamp: time.Now()}})
 				w.mu.Lock()
 				got := w.serving
